@@ -121,7 +121,11 @@ def gen_operand(rng, live, ncolors, depth=0, allow_boom=False):
         items = [gen_operand(rng, live, ncolors, depth + 1) for _ in range(rng.randint(0, 3))]
         if allow_boom and rng.random() < 0.3:
             items.insert(rng.randrange(len(items) + 1), {"boom": 1})
-        return {"l": items, "tuple": True} if rng.random() < 0.3 else {"l": items}
+        o = {"l": items, "tuple": True} if rng.random() < 0.3 else {"l": items}
+        if items and rng.random() < 0.2:
+            # one prepared list of parts referenced several times inside one operand (`[INDENT] * depth`)
+            o["times"] = rng.randint(2, 3)
+        return o
     if r < 0.96:
         if rng.random() < 0.3:
             # values of any type, appended the way print() would show them - also iterable ones
@@ -445,7 +449,11 @@ class World:
             return self.real.get(o["h"], "")
         if "l" in o:
             items = [self.real_operand(x) for x in o["l"]]
-            return tuple(items) if o.get("tuple") else items
+            items = tuple(items) if o.get("tuple") else items
+            if o.get("times"):
+                self.stats["repeated_part_lists"] = self.stats.get("repeated_part_lists", 0) + 1
+                return [items] * o["times"]      # the same object each time
+            return items
         if "boom" in o:
             return Boom()
         if "o" in o:
@@ -475,8 +483,9 @@ class World:
             if m is not None:
                 out.extend(m.cells)
         elif "l" in o:
-            for x in o["l"]:
-                self.model_operand(x, out)
+            for _ in range(o.get("times") or 1):
+                for x in o["l"]:
+                    self.model_operand(x, out)
         elif "boom" in o:
             raise BoomHit(list(out))
         elif "o" in o:
